@@ -46,6 +46,9 @@ Hostname.vos Hostname.vok Hostname.required_vos: Hostname.v Base.vos Fields.vos 
 HostnameProofs.vo HostnameProofs.glob HostnameProofs.v.beautified HostnameProofs.required_vo: HostnameProofs.v Base.vo Fields.vo SrcFacts.vo Msg.vo SrcDecisions.vo Sim.vo Prober.vo Hostname.vo CacheProofs.vo
 HostnameProofs.vio: HostnameProofs.v Base.vio Fields.vio SrcFacts.vio Msg.vio SrcDecisions.vio Sim.vio Prober.vio Hostname.vio CacheProofs.vio
 HostnameProofs.vos HostnameProofs.vok HostnameProofs.required_vos: HostnameProofs.v Base.vos Fields.vos SrcFacts.vos Msg.vos SrcDecisions.vos Sim.vos Prober.vos Hostname.vos CacheProofs.vos
+Resolver.vo Resolver.glob Resolver.v.beautified Resolver.required_vo: Resolver.v Base.vo Fields.vo SrcFacts.vo Msg.vo SrcDecisions.vo Cache.vo CacheSpec.vo Sim.vo Prober.vo
+Resolver.vio: Resolver.v Base.vio Fields.vio SrcFacts.vio Msg.vio SrcDecisions.vio Cache.vio CacheSpec.vio Sim.vio Prober.vio
+Resolver.vos Resolver.vok Resolver.required_vos: Resolver.v Base.vos Fields.vos SrcFacts.vos Msg.vos SrcDecisions.vos Cache.vos CacheSpec.vos Sim.vos Prober.vos
 CacheSpec.vo CacheSpec.glob CacheSpec.v.beautified CacheSpec.required_vo: CacheSpec.v Base.vo Fields.vo SrcFacts.vo Msg.vo Cache.vo
 CacheSpec.vio: CacheSpec.v Base.vio Fields.vio SrcFacts.vio Msg.vio Cache.vio
 CacheSpec.vos CacheSpec.vok CacheSpec.required_vos: CacheSpec.v Base.vos Fields.vos SrcFacts.vos Msg.vos Cache.vos
@@ -67,6 +70,9 @@ Properties_C03.vos Properties_C03.vok Properties_C03.required_vos: Properties_C0
 Properties_C07.vo Properties_C07.glob Properties_C07.v.beautified Properties_C07.required_vo: Properties_C07.v Base.vo Fields.vo SrcFacts.vo Msg.vo SrcDecisions.vo Sim.vo Prober.vo ProberProofs.vo
 Properties_C07.vio: Properties_C07.v Base.vio Fields.vio SrcFacts.vio Msg.vio SrcDecisions.vio Sim.vio Prober.vio ProberProofs.vio
 Properties_C07.vos Properties_C07.vok Properties_C07.required_vos: Properties_C07.v Base.vos Fields.vos SrcFacts.vos Msg.vos SrcDecisions.vos Sim.vos Prober.vos ProberProofs.vos
+Properties_C16.vo Properties_C16.glob Properties_C16.v.beautified Properties_C16.required_vo: Properties_C16.v Base.vo Fields.vo SrcFacts.vo Msg.vo SrcDecisions.vo Cache.vo Sim.vo Resolver.vo
+Properties_C16.vio: Properties_C16.v Base.vio Fields.vio SrcFacts.vio Msg.vio SrcDecisions.vio Cache.vio Sim.vio Resolver.vio
+Properties_C16.vos Properties_C16.vok Properties_C16.required_vos: Properties_C16.v Base.vos Fields.vos SrcFacts.vos Msg.vos SrcDecisions.vos Cache.vos Sim.vos Resolver.vos
 Properties_C17.vo Properties_C17.glob Properties_C17.v.beautified Properties_C17.required_vo: Properties_C17.v Base.vo Fields.vo SrcFacts.vo Msg.vo SrcDecisions.vo Sim.vo Hostname.vo HostnameProofs.vo
 Properties_C17.vio: Properties_C17.v Base.vio Fields.vio SrcFacts.vio Msg.vio SrcDecisions.vio Sim.vio Hostname.vio HostnameProofs.vio
 Properties_C17.vos Properties_C17.vok Properties_C17.required_vos: Properties_C17.v Base.vos Fields.vos SrcFacts.vos Msg.vos SrcDecisions.vos Sim.vos Hostname.vos HostnameProofs.vos
